@@ -335,6 +335,16 @@ def check_valence(fine, what=''):
                    what, n, d.get('element'), d.get('charge', 0), s, nh, want))
 
 
+def check_aromatic_bonds_in_rings(fine, what=''):
+    """an order-1.5 bond is a standard valence only as part of a ring"""
+    arom = [(a, b) for a, b, d in fine.edges(data=True) if d.get('order') == 1.5]
+    if arom:
+        bridges = {frozenset(e) for e in nx.bridges(fine)}
+        for a, b in arom:
+            expect(frozenset((a, b)) not in bridges, 'valence:aromatic-bond-outside-ring',
+                   lambda: '%sbond %r-%r has order 1.5 but lies on no ring' % (what, a, b))
+
+
 # ----------------------------------------------------------------------------------------
 # C12: canonical numbering
 # ----------------------------------------------------------------------------------------
